@@ -1,8 +1,10 @@
 package c04
 
 import (
+	"encoding/json"
 	"fmt"
 	"os"
+	"path/filepath"
 	"sort"
 	"strings"
 	"sync"
@@ -504,4 +506,25 @@ func TestFixed(t *testing.T) {
 		{{Kind: "create", Hosts: 0}}, {{Kind: "create", Hosts: 1}}, {{Kind: "destroy", Env: 0, KeepTasks: true}}, {{Kind: "destroy", Env: 0, KeepTasks: true}},
 		{{Kind: "cleanup", Listed: 1, ListHost: 2}, {Kind: "cleanup", Listed: 1, ListHost: 1}, {Kind: "create", Hosts: 0}},
 		{{Kind: "cleanup"}}}}, vh.Confirmed(run))
+}
+
+// TestSavedDetectorRace replays a saved shrunk case (found at VERIF_SEED=4): two creations needing the same detectors
+// overlap with a cleanup whose KILL calls are slow; on the pinned tree both succeeded.
+func TestSavedDetectorRace(t *testing.T) {
+	defer simworld.Discard()
+	dir := os.Getenv("VERIF_HARNESS_DIR")
+	if dir == "" {
+		dir = "/verif/harness"
+	}
+	b, err := os.ReadFile(filepath.Join(dir, "props/c04/testdata/detector_race_case.json"))
+	if err != nil {
+		t.Fatal(err)
+	}
+	var c Case
+	if err := json.Unmarshal(b, &c); err != nil {
+		t.Fatal(err)
+	}
+	for i := 0; i < 3; i++ {
+		vh.Fixed(t, prop, fmt.Sprintf("saved-detector-race-%d", i), c, vh.Confirmed(run))
+	}
 }
